@@ -40,3 +40,87 @@ pub use crate::rpc::{ConsistencyClient, ReplicationClient};
 
 /// The crate-private `DocVec`.
 pub type DocVec<T> = smallvec::SmallVec<[T; 4]>;
+
+/// Allocates the id of a keyspace actor instance (unique per process).
+pub fn next_actor_id() -> u64 {
+    static NEXT: std::sync::atomic::AtomicU64 = std::sync::atomic::AtomicU64::new(1);
+    NEXT.fetch_add(1, std::sync::atomic::Ordering::SeqCst)
+}
+
+/// `[[key, [time, counter, node]], ...]`
+pub fn items_json(items: &[(u64, datacake_crdt::HLCTimestamp)]) -> String {
+    let parts: Vec<String> = items
+        .iter()
+        .map(|(k, ts)| format!("[{},{}]", k, datacake_crdt::verif::ts_json(*ts)))
+        .collect();
+    format!("[{}]", parts.join(","))
+}
+
+/// The full state of a keyspace set, or `null` when it is too large to log.
+pub fn state_json(state: &datacake_crdt::OrSWotSet<{ crate::keyspace::NUM_SOURCES }>) -> String {
+    let p = state.verif_project();
+    if p.entries.len() + p.dead.len() > 256 {
+        return "null".to_string();
+    }
+    let stamps = |v: &[(u8, datacake_crdt::HLCTimestamp)]| {
+        let parts: Vec<String> = v
+            .iter()
+            .map(|(n, ts)| format!("[{},{}]", n, datacake_crdt::verif::ts_json(*ts)))
+            .collect();
+        format!("[{}]", parts.join(","))
+    };
+    let mx: Vec<String> = p.max_stamps.iter().map(|m| stamps(m)).collect();
+    format!(
+        "{{\"ent\":{},\"dead\":{},\"mx\":[{}],\"safe\":{}}}",
+        items_json(&p.entries),
+        items_json(&p.dead),
+        mx.join(","),
+        stamps(&p.safe_stamps)
+    )
+}
+
+/// A keyspace actor was created with `state`.
+pub fn ks_spawn(
+    actor: u64,
+    name: &str,
+    state: &datacake_crdt::OrSWotSet<{ crate::keyspace::NUM_SOURCES }>,
+) {
+    datacake_crdt::verif::emit(|seq| {
+        format!(
+            "{{\"ev\":\"ks_spawn\",\"seq\":{},\"actor\":{},\"name\":{:?},\"f\":{},\"post\":{}}}",
+            seq,
+            actor,
+            name,
+            datacake_crdt::FORGIVENESS_PERIOD.as_millis() / 4,
+            state_json(state)
+        )
+    });
+}
+
+/// One handled mutation of a keyspace actor; emitted by the actor itself after its
+/// last change to the set, before it replies.
+#[allow(clippy::too_many_arguments)]
+pub fn ks_op(
+    actor: u64,
+    kind: &str,
+    src: usize,
+    req: &[(u64, datacake_crdt::HLCTimestamp)],
+    applied: &[(u64, datacake_crdt::HLCTimestamp)],
+    stored: &str,
+    state: &datacake_crdt::OrSWotSet<{ crate::keyspace::NUM_SOURCES }>,
+) {
+    datacake_crdt::verif::emit(|seq| {
+        format!(
+            "{{\"ev\":\"ks_op\",\"seq\":{},\"f\":{},\"actor\":{},\"kind\":\"{}\",\"src\":{},\"req\":{},\"applied\":{},\"stored\":\"{}\",\"post\":{}}}",
+            seq,
+            datacake_crdt::FORGIVENESS_PERIOD.as_millis() / 4,
+            actor,
+            kind,
+            src,
+            items_json(req),
+            items_json(applied),
+            stored,
+            state_json(state)
+        )
+    });
+}
